@@ -9,6 +9,7 @@ import (
 	"path/filepath"
 	"sort"
 	"strings"
+	"time"
 
 	"github.com/nspcc-dev/neofs-node/internal/zzverif/simfs"
 	"github.com/nspcc-dev/neofs-node/pkg/local_object_storage/blobstor/common"
@@ -558,7 +559,7 @@ func (w *fsWorld) verifySnapshot(dir string, idx int, acked, inflight []*wop, cl
 func propC13() *simkit.Property {
 	return &simkit.Property{
 		ID: "C13", Level: "fault_enumeration", Bubble: true, TapeLimit: 3000,
-		Rule: "each run = one FSTree configuration and a workload of concurrent combined/single/batched writes (1-14 quick, up to 300 thorough; count/size limits drawn so that batches rotate); the workload is executed fault-free once to enumerate its K writer syscalls, then re-executed with a fault injected at EVERY call k (all k when K<=80, else 80 sampled; error ENOSPC/EIO/EMFILE/EEXIST/EACCES or short write by call kind) and, in the thorough tier, at sampled pairs (k1,k2); after each execution recovery writes are issued. Oracle: no panic, nothing hangs (120 s simulated), a write that returned success reads back identical, recovery writes succeed. distinct = (workload digest, k, fault kind); non-trivial = execution in which the fault actually fired while >=2 writes were in flight",
+		Rule: "each run = one FSTree configuration and a workload of concurrent combined/single/batched writes (1-14 quick, up to 300 thorough; count/size limits drawn so that batches rotate); the workload is executed fault-free once to enumerate its K writer syscalls, then re-executed with a fault injected at EVERY call k (all k when K<=80, else 80 sampled; error ENOSPC/EIO/EMFILE/EEXIST/EACCES or short write by call kind) and, in the thorough tier, at sampled pairs (k1,k2); after each execution recovery writes are issued. Oracle: no panic, nothing hangs (120 s simulated), a write that returned success reads back identical, recovery writes succeed, no descriptor opened by the tree stays open after the writes and the batch timers are over. distinct = (workload digest, k, fault kind); non-trivial = execution in which the fault actually fired while >=2 writes were in flight",
 		Run:  runC13,
 		Assumptions: []string{"faults are injected at the syscall seam of the writers (simfs); reads are not faulted", "a failed batch may legitimately fail every write that shares it"},
 		Components:  fsComponents,
@@ -677,6 +678,12 @@ func runC13(r *simkit.R) {
 			if err != nil || !bytes.Equal(b, data) {
 				r.Failf("fault", "write after the fault window is unreadable", "%s: %v", label, err)
 			}
+		}
+		// every descriptor the tree opened is closed again once the writes are over and the batch
+		// timers have run (a failed batch must release its descriptor and its unlinked inode too)
+		w.k.Sleep(3 * time.Second)
+		if n := w.sfs.OpenFDs(); n != 0 {
+			r.Failf("fault", "descriptors stay open after the writes finished ["+faultSig(firedDesc)+"]", "%s: after fault(s) [%s] %d descriptor(s) opened by the tree are still open at quiescence", label, sig, n)
 		}
 		if fired > 0 {
 			// "the affected writes report an error": every intercepted call belongs to some write,
